@@ -78,7 +78,7 @@ func checkLanguageSemantics(id string, p *core.Prog, r *core.Report, fns []*ssa.
 				// (1b) b := a[:0] and then both a and b are appended to
 				if x.High != nil && core.IsIntConst(x.High, 0) && x.Low == nil {
 					if _, isSlice := x.X.Type().Underlying().(*types.Slice); isSlice {
-						if appendedFrom(f, x.X, x) && appendedFrom(f, x, nil) {
+						if appendedFromAfter(f, x.X, x, x) && appendedFrom(f, x, nil) {
 							r.Violate(id+".x", key("shared-backing-array"), p.Pos(x.Pos()), "this slice is cut from "+ds.D(x.X).String()+" with length 0 and both are appended to afterwards: they share one backing array, so the elements of the one overwrite the elements of the other")
 						}
 					}
@@ -397,4 +397,53 @@ func onlyFeedsObservability(v ssa.Value) bool {
 		return true
 	}
 	return walk(v, 0)
+}
+
+// appendedFromAfter: like appendedFrom, for appends that can run after the instruction `after` (an in-place filter
+// `kept := xs[:0]` of a slice that was appended to only while it was being built is fine).
+func appendedFromAfter(f *ssa.Function, root ssa.Value, stopAt ssa.Value, after ssa.Instruction) bool {
+	found := false
+	core.EachInstr(f, func(in ssa.Instruction) {
+		c, ok := in.(*ssa.Call)
+		if !ok || found {
+			return
+		}
+		b, ok := c.Call.Value.(*ssa.Builtin)
+		if !ok || b.Name() != "append" || len(c.Call.Args) == 0 {
+			return
+		}
+		seen := map[ssa.Value]bool{}
+		var walk func(v ssa.Value, depth int) bool
+		walk = func(v ssa.Value, depth int) bool {
+			if v == nil || seen[v] || depth > 12 {
+				return false
+			}
+			seen[v] = true
+			if stopAt != nil && v == stopAt {
+				return false
+			}
+			if v == root {
+				return true
+			}
+			switch y := v.(type) {
+			case *ssa.Phi:
+				for _, e := range y.Edges {
+					if walk(e, depth+1) {
+						return true
+					}
+				}
+			case *ssa.Call:
+				if bb, ok := y.Call.Value.(*ssa.Builtin); ok && bb.Name() == "append" && len(y.Call.Args) > 0 {
+					return walk(y.Call.Args[0], depth+1)
+				}
+			}
+			return false
+		}
+		if walk(c.Call.Args[0], 0) {
+			if w := (core.PathQuery{Fn: f, From: after, Target: func(y ssa.Instruction) bool { return y == ssa.Instruction(c) }}).Find(); w != nil {
+				found = true
+			}
+		}
+	})
+	return found
 }
